@@ -1,5 +1,6 @@
 import SaModel.Lemmas.C14Span
 import SaModel.Codec.Time
+import SaModel.Lemmas.C14Time
 /-
 C14 — date, time, timestamp and duration conversions are exact.
 
@@ -288,6 +289,22 @@ theorem timeOfString_no_panic (ty : TimeTy) (u : TimeUnit) (s : List Char) : (ti
     split
     · rfl
     · split <;> rfl
+
+/-- **time round trip**: every valid stored time value is formatted by the reader to a string that the builder's
+parser (model of chrono's `NaiveTime::from_str`) reads back to exactly the same value, in every unit -/
+theorem time_roundtrip (ty : TimeTy) (u : TimeUnit) (v : Int) (hv : 0 ≤ v ∧ v < 86400 * (u.perSec : Int))
+    (hty : ty.inRange v = true) : ∃ s, timeToString u v = .ok s ∧ timeOfString ty u s = .ok v := by
+  unfold timeToString
+  cases ht : unitsToTime u v with
+  | none => unfold unitsToTime at ht; rw [if_pos hv] at ht; cases ht
+  | some p =>
+    obtain ⟨secs, nanos⟩ := p
+    obtain ⟨h1, h2, h3⟩ := timeToUnits_unitsToTime u v secs nanos ht
+    refine ⟨_, rfl, ?_⟩
+    unfold timeOfString
+    rw [parseNaiveTime_formatTime secs nanos h2 h3]
+    simp only [bind, Except.bind]
+    rw [if_neg (by omega), h1, if_pos hty]
 
 /-- pinned: the leap-second form is stored as 86400 s, outside the Arrow range `[0, 86400)` -/
 theorem timeOfStringPinned_out_of_range :
